@@ -163,6 +163,8 @@ def cli(argv=sys.argv, mode='output'):
         return F2.to_dimacs()
     else:
         F2.to_file(args.output, 'dimacs')
+        # a full disk must show up here, not at interpreter shutdown
+        args.output.flush()
 
 
 # Launcher
